@@ -45,7 +45,7 @@ def seeded():
     lines = [l.split() for l in open(mp).read().strip().split("\n")]
     props = lines[0][1:]
     out = ["Detection matrix (`tools/matrix.sh`: each change applied to /repo, every quick check run, change reverted). "
-           "`X` = reported with a replay, `.` = exit 0, `E2` = harness error.", "",
+           "`X` = reported with a replay, `.` = exit 0, `E2` = harness error, `-` = that check was not run against the change (round 8, `tools/matrix_some.sh`).", "",
            "| change | round | site | " + " | ".join(props) + " |",
            "|---|---|---|" + "---|" * len(props)]
     n_own = n = 0
